@@ -1014,3 +1014,58 @@ pub fn f_hostile(seed: u64) -> Plan {
     plan.phases.push(Phase { scripts: vec![vec![Step::new(Op::Pull { sub: sub.clone(), max: 100, immediate: true })]], advance_us: 0, audit: true });
     plan
 }
+
+
+// ------------------------------------------------------------------------------------------------
+// F-limits: batch limits around the backlog size, incl. the 16-bit conversion of max_messages.
+// ------------------------------------------------------------------------------------------------
+
+pub fn f_limits(seed: u64, allow_huge: bool) -> Plan {
+    let mut rng = Rng::new(seed);
+    let mut plan = Plan { seed, family: "limits".into(), final_drain: false, health_probe: true, ..Default::default() };
+    plan.tags.push("sequential".into());
+    plan.knobs = knobs(&mut rng, false, 0);
+    let topic = topic_name("proj-q", 0);
+    let sub = sub_name("proj-q", 0, 0);
+    plan.phases.push(Phase {
+        scripts: vec![vec![Step::new(Op::CreateTopic { topic: topic.clone() }), Step::new(Op::CreateSub { sub: sub.clone(), topic: topic.clone(), ack_deadline: 10, push: None })]],
+        advance_us: rng.below(200_000),
+        audit: false,
+    });
+    let huge = allow_huge && rng.chance(60);
+    let limits: Vec<i32> = if huge { vec![1, 1000, 1001, 65535, 65536, 65537, 131072, i32::MAX] } else { vec![1, 2, 3, 5, 999, 1000, 1001, 65535, 65536, 65537, i32::MAX] };
+    let limit = *rng.pick(&limits);
+    let backlog: u32 = if huge {
+        *rng.pick(&[65535u32, 65536, 65537, 70000])
+    } else {
+        let l = limit.clamp(1, 1200) as u32;
+        *rng.pick(&[0u32, 1, l.saturating_sub(1), l, l + 1, 7, 1000, 1001])
+    };
+    let mut script: Vec<Step> = Vec::new();
+    if backlog > 0 {
+        // one or two Publish requests
+        if backlog > 3 && rng.chance(400) {
+            let first = rng.range(1, backlog as u64 - 1) as u32;
+            script.push(Step::new(Op::PublishMany { topic: topic.clone(), count: first }));
+            script.push(Step::new(Op::PublishMany { topic: topic.clone(), count: backlog - first }));
+        } else {
+            script.push(Step::new(Op::PublishMany { topic: topic.clone(), count: backlog }));
+        }
+    }
+    for _ in 0..rng.range(1, 4) {
+        let max = if rng.chance(600) { limit } else { *rng.pick(&limits) };
+        script.push(Step::after(rng.below(50_000), Op::Pull { sub: sub.clone(), max, immediate: rng.chance(800) || backlog == 0 }));
+        if rng.chance(300) {
+            script.push(Step::new(Op::Ack { sub: sub.clone(), sel: sel_mine(Pick::LastResponse) }));
+        }
+    }
+    plan.phases.push(Phase { scripts: vec![script], advance_us: *rng.pick(&[0u64, 11_500_000]), audit: true });
+    // a stream with a limit, then whatever is left
+    let mut tail: Vec<Step> = Vec::new();
+    let smax = *rng.pick(&[0i64, 1, 2, 1000, 65535, 65536, 70000]);
+    tail.push(Step::new(Op::StreamOpen { slot: 1, sub: sub.clone(), max_msgs: smax, max_bytes: 0, policy: StreamPolicy::Hold }));
+    tail.push(Step::after(200_000, Op::StreamDrop { slot: 1 }));
+    plan.phases.push(Phase { scripts: vec![tail], advance_us: 11_500_000, audit: true });
+    plan.phases.push(Phase { scripts: vec![vec![Step::new(Op::Pull { sub: sub.clone(), max: limit, immediate: true }), Step::new(Op::Pull { sub: sub.clone(), max: 1000, immediate: true })]], advance_us: 0, audit: false });
+    plan
+}
